@@ -864,3 +864,17 @@ Theorem C03_import_row_refines_generated :
   forall cols k : nat, Z.of_nat cols <= 65536 -> GenRawTie.l2_obs cols k = GenRawTie.gen_obs cols k.
 Proof. exact GenRawGeneral.import_row_refines_generated. Qed.
 Print Assumptions C03_import_row_refines_generated.
+
+(* ================================================================== part 11: the table swap (fc18ee9) without concrete sizes, world or schedule *)
+From C03 Require GenSwapGeneral.
+
+(* two tables whose row pools point INTO their crews are created, swapped (managers exchanged as MemPool::Data::Swap does it in the
+   headers), the second dies, then the first: for ANY manager, sizes, starting world (pointwise view g, fresh ids above nb) and EVERY
+   schedule the machine is never Stuck - no pool reaches its manager through a dead crew block - and on completion the view is g again.
+   (An exception can only come from the four allocations of the set-up, which the scenario does not clean up: nothing is claimed then.) *)
+Theorem C03_gen_pool_swap_general :
+  forall (mgr crewsz bufsz : Z) (f : loc -> bool) (g : bview) (nb : Z) (equal : bool) s,
+    (forall b, nb <= b -> g b = None) -> st2 s f g nb ->
+    post (swap_scn data_swap_unconditional equal mgr crewsz bufsz) s (fun _ s' => st2 s' f g (nb + 1 + 1 + 1 + 1)) (fun _ => True).
+Proof. exact GenSwapGeneral.gen_pool_swap_general. Qed.
+Print Assumptions C03_gen_pool_swap_general.
